@@ -102,7 +102,10 @@ pub fn canon(level: u8, x: &str) -> String {
         }
         4 => {
             // JSON documents: compare as values
-            match serde_json::from_str::<serde_json::Value>(x) {
+            // (no depth limit here: the deepest programs the parser accepts exceed serde_json's default of 128)
+            let mut de = serde_json::Deserializer::from_str(x);
+            de.disable_recursion_limit();
+            match <serde_json::Value as serde::Deserialize>::deserialize(&mut de) {
                 Ok(v) => v.to_string(),
                 Err(_) => x.to_string(),
             }
